@@ -23,8 +23,16 @@ def confirm(pid, v):
     src = "/tmp/mut/out/%s/%s" % (pid, v)
     howto = open(os.path.join(src, "HOWTO.txt")).read()
     demo_files = [f for f in os.listdir(src) if f.endswith(".go")] or ["demo"]
+    OVERRIDE = {"C11": ("demo_test.go", "c11demo/demo_test.go", "go test -vet=off -count=1 ./c11demo/"),
+                "C12": ("demo_test.go", "c12demo/demo_test.go", "go test -vet=off -count=1 ./c12demo/")}
     m = re.search(r"cp\s+(?:-r\s+)?/tmp/mut/out/%s/%s/(\S+)\s+(\S+)" % (pid, v), howto)
     g = re.search(r"(go (?:test|run)[^\n#]*)", howto)
+    if pid in OVERRIDE:
+        class M:
+            def __init__(self, a): self.a = a
+            def group(self, i): return self.a[i - 1]
+        m = M(OVERRIDE[pid][:2])
+        g = M((OVERRIDE[pid][2],))
     if not m or not g:
         return {"ok": False, "why": "could not parse HOWTO"}
     demo_src, demo_dst = m.group(1), m.group(2)
